@@ -68,6 +68,15 @@ func genC09(t *rapid.T) c09Plan {
 		vb = []byte{0, 1}
 	}
 	p := genC09Rest(t, va, vb, keys)
+	if !allFresh && n >= 1 && n <= 5 && rapid.IntRange(0, 7).Draw(t, "mixedVersions") == 0 {
+		// a version-1 transfer that stays under way, then a version-0 third party taking the same keys
+		for i := range keys {
+			keys[i].State = "unstored"
+		}
+		p.VA, p.VB, p.Keys = []byte{1}, []byte{0, 1}, keys
+		p.Radius, p.PreTaken, p.QueueFull, p.Limit = "max", 0, false, 50
+		p.Stream, p.Second, p.Third, p.ThirdV0 = "nodial", true, true, true
+	}
 	if allFresh {
 		p.Radius, p.PreTaken, p.QueueFull = "max", 0, false
 		if p.Limit < 1 {
